@@ -43,6 +43,12 @@ def run_perm(case, perm, sents):
             res.append('ok')
         except Exception as e:
             res.append(f'raise:{type(e).__name__}')
+    if sum(perm) % 2 == 0 or len(perm) % 2:
+        # a look at the unfinished model (it may refuse) must not change what the finished model publishes
+        try:
+            m.get_data()
+        except Exception:
+            pass
     try:
         m.finish()
     except Exception as e:
